@@ -21,6 +21,10 @@ def seeded_regions(f):
                 ok = isinstance(nxt, ast.Try) and any(isinstance(c, ast.Call) and norm(c.func) == tgt + '.restore'
                                                       for x in nxt.finalbody for c in ast.walk(x))
                 out.append((s, nxt if ok else None, tgt))
+            # `with PRNGState(seed):` - the block is the protected region when the class restores on exit (checked below)
+            if isinstance(s, ast.With) and any(isinstance(it.context_expr, ast.Call) and getattr(it.context_expr.func, 'id', '') == 'PRNGState'
+                                               for it in s.items):
+                out.append((s, s, 'with'))
     return out
 
 
@@ -45,7 +49,7 @@ def _blocks(fnode):
 
 def inside(node, tries):
     for t in tries:
-        for part in t.body + [x for h in t.handlers for x in h.body] + t.orelse:
+        for part in t.body + [x for h in getattr(t, 'handlers', []) for x in h.body] + getattr(t, 'orelse', []):
             if any(x is node for x in ast.walk(part)):
                 return True
     return False
@@ -69,15 +73,55 @@ def check(run):
                    fn=f, node=s)
     run.floor('C14-RESTORE', nreg, 2)
     ps = p.cls('PRNGState')
-    src = ast.unparse(ps.node).replace(' ', '')
     init = ps.methods['__init__']
-    seedp = init.posparams[1]
-    tests = [s.test for s in init.node.body if isinstance(s, ast.If)]
-    ok_none = len(tests) == 1 and norm(tests[0]).replace(' ', '') == '%sisnotNone' % seedp
-    run.ob('C14-RESTORE', 'PRNGState:seed-test', ok_none, 'PRNGState seeds whenever the seed `%s` (0 is a seed): %s' % (
-        norm(tests[0]) if tests else '?', 'ok' if ok_none else 'a truthiness test treats seed 0 as no seed'), fn=init)
-    run.ob('C14-RESTORE', 'PRNGState', 'self.saved=random.getstate()' in src and 'random.setstate(self.saved)' in src and 'random.seed(n)' in src,
-           'PRNGState saves the global state, seeds, and restore() puts the saved state back', fn=ps.methods['__init__'], nontrivial=False)
+    from ..pyeval import Interp, Model, Obj, Unsupported, Raised
+
+    class Rnd(Model):
+        def __init__(self):
+            self.log = []
+            self.state = 'S0'
+
+        def getstate(self):
+            self.log.append('getstate')
+            return self.state
+
+        def seed(self, n=None):
+            self.log.append('seed(%r)' % (n,))
+            self.state = 'seeded'
+
+        def setstate(self, st):
+            self.log.append('setstate(%s)' % st)
+            self.state = st
+    bad = []
+    for n_ in (None, 0, 7, 'text'):
+        for how in ('restore', 'with'):
+            if how == 'with' and '__exit__' not in ps.methods:
+                continue
+            rnd = Rnd()
+            I = Interp(p)
+            I.extra_names['random'] = rnd
+            o = Obj(ps)
+            try:
+                I.call(init, [n_], selfobj=o)
+                after_init = list(rnd.log)
+                if how == 'restore':
+                    I.call(ps.methods['restore'], [], selfobj=o)
+                else:
+                    I.call(ps.methods['__enter__'], [], selfobj=o)
+                    I.call(ps.methods['__exit__'], [None, None, None], selfobj=o)
+            except (Unsupported, Raised) as e:
+                raise AnalysisError('PRNGState is not evaluable: %s' % e)
+            want_init = [] if n_ is None else ['getstate', 'seed(%r)' % (n_,)]
+            want = want_init + ([] if n_ is None else ['setstate(S0)'])
+            if after_init != want_init or rnd.log != want or rnd.state != 'S0':
+                bad.append((n_, how, rnd.log))
+    run.ob('C14-RESTORE', 'PRNGState:seed-test', not [b for b in bad if b[0] in (0,)],
+           'PRNGState(0) saves the global state, seeds with 0 and restores: 0 is a seed%s' % (
+               '' if not [b for b in bad if b[0] == 0] else ' - not so: calls made %s (a truthiness test treats seed 0 as no seed)' % [b for b in bad if b[0] == 0][0][2]), fn=init)
+    other = [b for b in bad if b[0] != 0]
+    run.ob('C14-RESTORE', 'PRNGState', not other,
+           'PRNGState(seed) saves the global state and seeds exactly when a seed is given, and restore() (or leaving a with block) puts the '
+           'saved state back%s' % ('' if not other else ' - not for seed %r via %s: %s' % other[0]), fn=init, nontrivial=False)
 
     run.rule('C14-PRNG', 'every use of the global random generator lies inside a seeded, restored region on every call chain from '
                          'Extractor.__init__ / Extractor.extract')
